@@ -19,6 +19,7 @@ type Ctrl struct {
 	Pend  int16 // byte class that must be re-dispatched to the current step, or -1
 	Ended bool // the EOF symbol has been consumed
 	AtEOF bool // the open lexeme began on the end-of-input symbol itself (it spans no byte)
+	AfterNL bool // the last consumed byte was a line end read with no lexeme open (start of a line)
 	NoEOF bool // the next symbol cannot be end of input (the read position was just moved back onto a consumed byte)
 }
 
@@ -384,6 +385,11 @@ func (a *analysis) apply(st *State, p *Path, c Ctrl, cls int, via string) (Ctrl,
 	nc.Pend = -1
 	nc.NoEOF = false
 	libLen := false
+	// W3: at the start of a line, outside lexemes and comments, a blank or a further line end
+	// is never an error
+	if c.AfterNL && c.Open == 0 && !a.r.CommentStates[st.ID] && p.Out == OutErr && a.classSets[cls].SubsetOf(Of(' ', '\t', '\n', '\r')) {
+		a.finding("W3", st, p, fmt.Sprintf("a blank or empty line (byte %s) right after a line end, outside any lexeme, is rejected: inserting a blank line or indenting this line changes the verdict", a.classSets[cls]), c, via)
+	}
 	rewind := 0
 	jump := false
 	events := 0
@@ -541,6 +547,7 @@ func (a *analysis) apply(st *State, p *Path, c Ctrl, cls int, via string) (Ctrl,
 		if adv < 1 {
 			nc.NoEOF = true
 		}
+		nc.AfterNL = adv >= 1 && nc.Open == 0 && (a.classSets[cls].SubsetOf(Of('\n', '\r')) || (c.AfterNL && a.classSets[cls].SubsetOf(Of(' ', '\t'))))
 		nc.Cons = sat(int(nc.Cons) + adv)
 		if nc.Cons < 0 {
 			nc.Cons = 0
